@@ -78,6 +78,10 @@ func prologue(d *Drv, driver string) {
 			d.Do(Ev{"op": "roman.set", "max": 128, "fmt": 0})
 		case "sem":
 			d.Do(Ev{"op": "sem.set", "max": max})
+			if shift == 1 { // Valid() on a hand-built value before anything was parsed or compared
+				d.Do(Ev{"op": "sem.valid", "v": ver("1", "2", "3", "rc.1", "b.7")})
+				d.Do(Ev{"op": "sem.valid", "v": ver("0", "0", "0", "", "")})
+			}
 			for i, in := range []string{"1.2.3", "v1.2.3-rc.1+b.7", "1.2", "01.2.3", "1.0.0-alpha.beta", ""} {
 				d.Do(Ev{"op": "sem.parse", "in": B(in), "fn": []string{"Parse", "ParseVersion", "ParseTag", "DefaultParser"}[i%4], "rule": (i + shift) % 2, "T": []string{"s", "b"}[i%2]})
 			}
